@@ -798,6 +798,9 @@ func (o *operation) processRequestEnvelope(envBuf envelopeBytes) (msgLen int, co
 	if env.trailer {
 		return 0, false, malformedRequestError(errors.New("client stream cannot include status/trailer message"))
 	}
+	if env.compressed && o.client.reqCompression == nil {
+		return 0, false, malformedRequestError(errors.New("message is flagged as compressed but the request declares no compression"))
+	}
 	if limit := o.methodConf.maxMsgBufferBytes; env.length > limit {
 		return 0, false, bufferLimitError(int64(limit))
 	}
@@ -962,6 +965,9 @@ func (r *envelopingReader) prepareNext() error {
 			return err
 		}
 		env, err = r.rw.op.clientEnveloper.decodeEnvelope(envBytes)
+		if err == nil && env.compressed && r.rw.op.client.reqCompression == nil {
+			err = errors.New("message is flagged as compressed but the request declares no compression")
+		}
 		if err != nil {
 			err = malformedRequestError(err)
 			r.rw.reportReadError(err)
